@@ -76,7 +76,12 @@ func TestDrv_C15(t *testing.T) {
 			var httpDoc, jsonDoc bytes.Buffer
 			tgts := make([]vegeta.Target, n)
 			enc := vegeta.NewJSONTargetEncoder(&jsonDoc)
+			// the same targets in the opposite order: the input of the second of two targeters living side by side
+			var httpDocR, jsonDocR bytes.Buffer
+			encR := vegeta.NewJSONTargetEncoder(&jsonDocR)
+			var httpParts []string
 			for i := 1; i <= n; i++ {
+				httpStart := httpDoc.Len()
 				tg := vegeta.Target{Method: []string{"GET", "POST", "PUT"}[i%3], URL: fmt.Sprintf("http://h.example/t%d", i),
 					Header: http.Header{"X-Id": {strconv.Itoa(i)}, "X-Pad": {strings.Repeat("p", i%90) + "-" + strconv.Itoa(i)}, "X-Tag": {"t" + strconv.Itoa(i)}}}
 				fmt.Fprintf(&httpDoc, "%s %s\nX-Id: %d\nX-Pad: %s\nX-Tag: t%d\n", tg.Method, tg.URL, i, tg.Header["X-Pad"][0], i)
@@ -89,10 +94,23 @@ func TestDrv_C15(t *testing.T) {
 					}
 				}
 				httpDoc.WriteString("\n")
+				httpParts = append(httpParts, string(httpDoc.Bytes()[httpStart:]))
 				must(enc.Encode(&tg))
+				must(encR.Encode(&tg)) // (re-ordered below)
 				tg.Header = tg.Header.Clone()
 				tg.Header["X-Tag"] = []string{"a", "b", "c", "t" + strconv.Itoa(i)} // the static targeter gets the merged targets
 				tgts[i-1] = tg
+			}
+			{
+				lines := bytes.SplitAfter(jsonDocR.Bytes(), []byte("\n"))
+				var rev bytes.Buffer
+				for i := len(lines) - 1; i >= 0; i-- {
+					rev.Write(lines[i])
+				}
+				jsonDocR = rev
+				for i := n; i >= 1; i-- {
+					httpDocR.WriteString(httpParts[i-1])
+				}
 			}
 			for _, callers := range callerss {
 				for _, kind := range []string{"http", "json", "static", "jsonfile", "httpfile"} {
@@ -105,9 +123,9 @@ func TestDrv_C15(t *testing.T) {
 								skip = true
 								return nil
 							}
-							doc := jsonDoc.Bytes()
+							doc := [][]byte{jsonDoc.Bytes(), jsonDocR.Bytes()}[twin]
 							if kind == "httpfile" {
-								doc = httpDoc.Bytes()
+								doc = [][]byte{httpDoc.Bytes(), httpDocR.Bytes()}[twin]
 							}
 							p := filepath.Join(dir, fmt.Sprintf("c15_%d_%d_%d_%d.%s", round, n, callers, twin, kind))
 							must(os.WriteFile(p, doc, 0o644))
@@ -124,15 +142,15 @@ func TestDrv_C15(t *testing.T) {
 								skip = true // body files only exist for the first 400 targets
 								return nil
 							}
-							tgr = vegeta.NewHTTPTargeter(bytes.NewReader(httpDoc.Bytes()), nil, defaults())
+							tgr = vegeta.NewHTTPTargeter(bytes.NewReader([][]byte{httpDoc.Bytes(), httpDocR.Bytes()}[twin]), nil, defaults())
 						case "json":
-							tgr = vegeta.NewJSONTargeter(bytes.NewReader(jsonDoc.Bytes()), nil, defaults())
+							tgr = vegeta.NewJSONTargeter(bytes.NewReader([][]byte{jsonDoc.Bytes(), jsonDocR.Bytes()}[twin]), nil, defaults())
 						case "static":
 							tgr = vegeta.NewStaticTargeter(tgts...)
 						}
 						return tgr
 					}
-					// in the odd rounds two stream targeters over the same input live side by side (each read by its own callers):
+					// in the odd rounds two stream targeters over the same targets in opposite orders live side by side (each read by its own callers):
 					// neither is "mixed with another"
 					twins := 1
 					if round%2 == 1 && kind != "static" && callers >= 2 {
